@@ -442,6 +442,52 @@ func prunedAreCheckpointed(w *World, r *Report, rule string) {
 		return
 	}
 	r.check(m.save.root == m.del.root, rule, "truncate/deleted-set-is-saved-set", lineOf(w, m.del.d.c), "the collecting walk starts at the vertex the save walk started at", fmt.Sprintf("%s vs %s", m.save.root, m.del.root))
+	// the save walk covers what the collecting walk covers: its callback lets the walk go on (nil) or end quietly (the
+	// walker's stop sentinel, which truncate tolerates) only after the vertex at hand was stored
+	if cb := m.save.cb; cb != nil && m.save.cbArg < len(cb.Params) {
+		v := cb.Params[m.save.cbArg].Name()
+		saved := func(fn2 *ssa.Function, res resolver) []Edge {
+			var es []Edge
+			for _, c := range callsTo(fn2, nSaveVertex) {
+				_, a := callArgs(c)
+				if len(a) > 0 && res(a[0]) == v {
+					es = append(es, passErrNil(c)...)
+				}
+			}
+			return es
+		}
+		svE := deepEdges(cb, idRes, saved, 1)
+		var saveCalls []ssa.CallInstruction
+		for _, c := range callsTo(cb, nSaveVertex) {
+			_, a := callArgs(c)
+			if pathOf(a[0]) == v {
+				saveCalls = append(saveCalls, c)
+			}
+		}
+		bad := ""
+		for _, ret := range returnsOf(cb) {
+			vals, zero := resultVals(ret, 0)
+			quiet := zero || successReturn(ret)
+			for _, rv := range vals {
+				if strings.HasSuffix(pathOf(rv), ".ErrBreak") {
+					quiet = true
+				}
+			}
+			if !quiet {
+				continue
+			}
+			propagates := false
+			for _, sc := range saveCalls {
+				if len(vals) == 1 && sameVal(vals[0], callValue(sc)) {
+					propagates = true
+				}
+			}
+			if !behind(ret, svE) && !propagates {
+				bad += " return at " + lineOf(w, ret) + " lets the walk continue or stop quietly without the vertex having been stored;"
+			}
+		}
+		r.check(bad == "" && (len(svE) > 0 || len(saveCalls) > 0), rule, "truncate/save-walk-covers-the-cut", w.Pos(cb.Pos()), "every ancestor the deletion removes was stored by the save walk, or the truncation fails", bad)
+	}
 	for _, d := range m.dels {
 		_, da := callArgs(d.c)
 		fromBuf := false
